@@ -31,6 +31,7 @@ PROPS = {
     'C09': {
         'level': 'proof',
         'kani': False,
+        'native': True,
         'explanation': 'Per-call frame contracts on the real debugger code: run_command proves, per command read, that every execution-control and '
                        'inspection command (help step step-into step-out continue registers print assembly echo break list/add/remove quit exit) '
                        'leaves the machine state equal (*final(state) == *old(state)); check_interrupts and next_action outside run_command never '
@@ -42,6 +43,7 @@ PROPS = {
     'C10': {
         'level': 'proof',
         'kani': False,
+        'native': True,
         'explanation': 'The status machine of next_action is proved equal to the control oracle (DESIGN App. B): StepInto{c} proceeds and decrements / '
                        'pauses at 0, StepOver proceeds until PC == return address, Finish pauses after a RET/RETS, Continue proceeds; breakpoint, HALT '
                        'and PC outside user space force a pause before anything else. run_command proves the four resuming commands set exactly the '
@@ -63,6 +65,7 @@ PROPS = {
     'C12': {
         'level': 'proof',
         'kani': False,
+        'native': True,
         'explanation': 'run_command: Reset => *final(state) == old(self).initial_state; every &mut self method of Debugger under contract proves '
                        'dbg_frame (initial_state and asm_source unchanged), so nothing can alter the saved state; eval receives only `state`.',
         'assumptions': ['RunState::clone is the derived structural clone (derive checked by source scan; semantics of derive trusted)'],
@@ -79,6 +82,7 @@ PROPS = {
     'C16': {
         'level': 'proof',
         'kani': False,
+        'native': True,
         'explanation': 'Progress contract instead of liveness: next_action terminates (decreases: commands remaining in the finite script, then status) '
                        'and guarantees: Proceed without having consumed a command ==> PC in user space and not on HALT (so the run loop executes an '
                        'instruction); paused states (breakpoint, HALT, PC outside user space incl. 0xFFFF, step finished) always consume a command or '
@@ -88,6 +92,7 @@ PROPS = {
     'C03': {
         'level': 'proof',
         'kani': False,
+        'native': True,
         'explanation': 'RunEnvironment::from_raw is proved against load_spec (accepted iff non-empty and image[0]+len <= 0x10000; words at the origin, '
                        '0xF025 after the last word, zero elsewhere, PC=orig=image[0], R0-R6=0, R7=0xFDFF, no CC; exit 0xEE otherwise, never an index panic). '
                        'RunEnvironment::run: proved that no instruction is fetched outside [orig,0xFE00), PC+1 cannot overflow, the loop ends only at '
@@ -100,6 +105,7 @@ PROPS = {
     'C06': {
         'level': 'proof',
         'kani': False,
+        'native': True,
         'explanation': 'Loader half only: from_raw accepts exactly the word images that fit (image[0]+len <= 0x10000, non-empty) and places them per '
                        'load_spec; everything else reaches the error exit, never a crash. The byte layer (big-endian file I/O, odd-length check, '
                        'extension dispatch in main()) has no function boundary within verifier reach and is NOT decided.',
@@ -132,6 +138,7 @@ PROPS = {
     'C07': {
         'level': 'proof',
         'kani': True,
+        'native': True,
         'explanation': 'assemble() (shared by check and watch) is proved to return Ok only if every statement has its labels resolved and enc_spec is '
                        'defined for it, i.e. emission cannot fail afterwards — so a source that check accepts always compiles/runs. Uses the contracts '
                        'of parse, Air::backpatch and AsmLine::emit (emit fails iff enc_spec is None).',
